@@ -344,8 +344,8 @@ func ipv6CreateRejectTCPPacket(packet []byte, out []byte, offset int) []byte {
 // 253/254, and real upper layer protocols like SCTP or GRE, is terminal. Walking those as extension headers
 // is a firewall bypass, so they fail closed. For a non-first fragment the returned protocol is the fragmented
 // protocol and offset points at the fragment header, there is no transport header to locate. Returns
-// ErrIPv6CouldNotFindPayload if packet is smaller than an ipv6 header or the chain is truncated before a
-// terminal protocol is reached.
+// ErrIPv6CouldNotFindPayload if packet is smaller than an ipv6 header, the chain is truncated before a
+// terminal protocol is reached, or the chain is longer than maxIPv6ExtHeaders extension headers.
 func IPv6FindUpperProtocol(packet []byte) (nextHeader uint8, offset int, isFragment bool, anyFragment bool, err error) {
 	const maxIPv6ExtHeaders = 8
 	if len(packet) < ipv6.HeaderLen {
@@ -390,6 +390,17 @@ func IPv6FindUpperProtocol(packet []byte) (nextHeader uint8, offset int, isFragm
 			}
 			return nextHeader, offset, isFragment, anyFragment, nil
 		}
+	}
+
+	// maxIPv6ExtHeaders extension headers have been walked, only a terminal protocol may follow. If nextHeader is
+	// yet another extension header (keep in step with the cases above) the chain is unresolved and must not be
+	// classified as the upper layer protocol.
+	switch nextHeader {
+	case 0, 43, 44, 51, 60:
+		return nextHeader, offset, isFragment, anyFragment, ErrIPv6CouldNotFindPayload
+	}
+	if offset > len(packet) {
+		return nextHeader, offset, isFragment, anyFragment, ErrIPv6CouldNotFindPayload
 	}
 	return nextHeader, offset, isFragment, anyFragment, nil
 }
